@@ -81,8 +81,8 @@ def signature_rules(r, lib, R):
     for b in lib.real_bodies():
         if R.ok and (b.name == R.body.name or b.name.startswith(R.body.name + "::") or b.name in [x.name for x in R.entry] or b.name in getattr(R, "helpers", ())):
             continue
-        if b.name.startswith("options::"):
-            continue
+        if b.name.startswith("options::") or b.name.startswith("<options::"):
+            continue    # constructors, builders and trait impls of the option types themselves (judged by R10.5)
         bad = [i for i, l in enumerate(b.locals) if "options::Options" in l["ty"]["s"] or "options::SortBy" in l["ty"]["s"]]
         n += 1
         if bad:
@@ -627,6 +627,12 @@ def constructor_rules(r, lib):
             r.ob("R10.5.builder", path, ok, "overwrites exactly the field `%s` with a copy of its argument" % names[0] if ok else
                  "builder writes fields %s (other calls: %s)" % (names, effects), site=mir.line_of(b.span), key="R10.5|builder|%s" % path)
         else:
+            # a constructor that only hands on the value of another constructor of the same type (e.g. Default::default)
+            deleg = [cs for cs in b.calls() if cs.node["dest"]["l"] == 0 and not cs.node["dest"]["p"] and not cs.node["args"] and
+                     lib.fns.get(cs.node["callee"].get("path"), {}).get("impl_self", {}).get("adt") == "options::Options"]
+            if not aggs and len(deleg) == 1 and effects == [cname(deleg[0].node)] and not f["inputs"]:
+                r.ob("R10.5.preset-is-constant", path, True, "returns the value of the preset %s unchanged" % cname(deleg[0].node), site=mir.line_of(b.span), key="R10.5|preset|%s" % path)
+                continue
             ok = len(aggs) == 1 and not effects
             vals = {}
             if ok:
